@@ -1097,6 +1097,42 @@ fn sub_un(env: &Rc<MEnv>, op: &Op, inner: &Node, down: Obs, d: Disp) {
         )
       })
     }
+    Op::GroupFirsts(k) => {
+      // one group per key, whatever its subscriber does: only the first item of a key is
+      // handed on, later ones meet a group nobody listens to any more
+      let k = k.max(1);
+      let groups: Rc<RefCell<Vec<i64>>> = Rc::new(RefCell::new(Vec::new()));
+      un(env, inner, d, |_| {
+        (
+          move |p: &P| {
+            let key = p.as_i64().rem_euclid(k);
+            if !groups.borrow().contains(&key) {
+              groups.borrow_mut().push(key);
+              let g = groups.borrow().len() - 1;
+              dn.next(&P::L(vec![P::I(g as i64), p.clone()]))
+            }
+          },
+          move |c| de.error(c),
+          move || dc.complete(),
+        )
+      })
+    }
+    Op::WindowFirsts(n) => {
+      let seen = Rc::new(Cell::new(0usize));
+      un(env, inner, d, |_| {
+        (
+          move |p: &P| {
+            let i = seen.get();
+            seen.set(i + 1);
+            if i % n == 0 {
+              dn.next(&P::L(vec![P::I((i / n) as i64), p.clone()]))
+            }
+          },
+          move |c| de.error(c),
+          move || dc.complete(),
+        )
+      })
+    }
     Op::Materialize => {
       let de2 = down.clone();
       un(env, inner, d, |_| {
@@ -1678,7 +1714,9 @@ impl MConn {
 
 fn conn_connect(sh: &Rc<MShared>) {
   let conn = sh.conn.as_ref().unwrap().clone();
-  if conn.connection.borrow().is_some() {
+  // (publish: every connect() call is a source subscription of its own; the histories only
+  // call it again once the previous connection is over - ended by the source or disconnected)
+  if conn.connection.borrow().is_some() && conn.kind != ConnKind::Publish {
     return;
   }
   let d = Disp::new();
